@@ -235,11 +235,18 @@ def gen_synth(rng):
     if rng.random() < 0.4:
         rng.shuffle(f1)
     f2 = ["T[k, m, n]"] + rng.sample(["C[m, n]", "E[m, n]", "P[m]", "R[n]"], classes._choice_w(rng, [(0, 2), (1, 4), (2, 4)]))
-    if rng.random() < 0.6:
+    if rng.random() < 0.75:
         rng.shuffle(f2)
+    if rng.random() < 0.25:
+        # a one-rank operand first, then the intermediate, then another holder of the other rank: the first
+        # holders of M and N differ
+        first = rng.choice(["P[m]", "R[n]"])
+        f2 = [first, "T[k, m, n]", rng.choice(["C[m, n]", "E[m, n]", "R[n]" if first == "P[m]" else "P[m]"])]
     f3 = ["Z[m, n]", "D[n]"] + (["P[m]"] if rng.random() < 0.3 else [])
     if rng.random() < 0.4:
         rng.shuffle(f3)
+    if rng.random() < 0.15:
+        f3 = ["D[n]", "Z[m, n]", "P[m]"]
     all_exprs = ["T[k, m, n] = " + " * ".join(f1), "Z[m, n] = " + " * ".join(f2), "Y[m] = " + " * ".join(f3)]
     exprs = all_exprs[:n]
     used = set()
@@ -302,7 +309,12 @@ def gen_synth(rng):
         hold = classes.holders_of(spec, e)
         co = [r for r in lo[o] if len(hold.get(r, [])) >= 2]
         isect_ranks = set()
+        # pairs of co-iterated ranks whose first holders (= legal leaders) differ: one leader-follower
+        # intersector bound to both has a different leader per rank
+        lf_pairs = [(r1, r2) for r1 in co for r2 in co if r1 != r2 and hold[r1][0] != hold[r2][0]]
         want_isect = [rng.choice(["LF", "LF", "TF", "SA"])] if rng.random() < 0.5 else []
+        if lf_pairs and rng.random() < 0.5:
+            want_isect = ["LF"]
         if want_isect and rng.random() < 0.3:
             # a second intersector of another type on other ranks of the same Einsum
             want_isect.append(rng.choice([c for c in ("LF", "TF", "SA") if c not in want_isect]))
@@ -330,6 +342,8 @@ def gen_synth(rng):
                 if not free:
                     continue
                 rs = rng.sample(free, 2) if len(free) >= 2 and rng.random() < 0.5 else [rng.choice(free)]
+                if c == "LF" and lf_pairs and not isect_ranks and rng.random() < 0.7:
+                    rs = list(rng.choice(lf_pairs))
                 isect_ranks.update(rs)
                 bs = []
                 for r in rs:
@@ -420,7 +434,7 @@ def gen_synth_part(rng):
         if c == "LF":
             b["leader"] = "A"
         bl.append({"component": c, "bindings": [b]})
-    if rng.random() < 0.4:
+    if rng.random() < 0.5:
         # hardware merger bound to a tensor that is partitioned before the merge: init-ranks name partition levels
         t = rng.choice(["A", "B"])
         init = []
@@ -445,11 +459,11 @@ def _append_bindings(bl, comp, items):
     bl.append({"component": comp, "bindings": items})
 
 
-def gen_metrics(rng, repo="/repo", accel_p=0.35):
+def gen_metrics(rng, repo="/repo", accel_p=0.35, part_p=0.15):
     x = rng.random()
     if x < accel_p:
         return gen_accel(rng, repo)
-    if x < accel_p + 0.15:
+    if x < accel_p + part_p:
         return gen_synth_part(rng)
     return gen_synth(rng)
 
